@@ -149,3 +149,14 @@ package gitindex
 //@     invariant cr != nil && cr.reader != nil && okSlab(addr(slab))
 //@     decreases len(keys) - $i
 //@   ensures result == nil ==> docsAdded == old(docsAdded) + len(keys)
+
+// ---------------------------------------------------------------------------
+// C33: a dry run decides but does not write
+// ---------------------------------------------------------------------------
+
+// The builder (which creates shard files) and the deletion of stale shards are
+// reached only on paths where opts.DryRun was tested false (control-flow
+// contract, frames back end).
+//@ func gitindex.indexGitRepo
+//@   guard call:NewBuilder by !field:DryRun
+//@   guard call:Finish by !field:DryRun
